@@ -149,7 +149,7 @@ dt_io_strfdt(
 {
 	size_t res = dt_strfdt(buf, bsz, fmt, that);
 
-	if (LIKELY(res > 0) && apnd_ch && buf[res - 1] != apnd_ch) {
+	if (LIKELY(res > 0) && res < bsz && apnd_ch && buf[res - 1] != apnd_ch) {
 		/* auto-newline */
 		buf[res++] = (char)apnd_ch;
 	}
